@@ -9,8 +9,9 @@ func init() {
 			"the 5 s save debounce runs on the synctest virtual clock; file I/O is real (scratch directory under /verif/.work)",
 		}, commonAssume...),
 		Parts: []partSpec{
-			{Name: "sequential", Flavour: "plain", TimeoutQ: m10, TimeoutT: m60, Weight: 10},
+			{Name: "sequential", Flavour: "plain", TimeoutQ: m10, TimeoutT: m60, Weight: 6},
 			{Name: "concurrent", Flavour: "race", TimeoutQ: m10, TimeoutT: m60, Weight: 6},
+			{Name: "api", Flavour: "plain", TimeoutQ: m10, TimeoutT: m60, Weight: 4},
 		},
 	}
 }
